@@ -395,6 +395,8 @@ def s_distinct(eng, args, kw, n, st):
 
 def s_ite(eng, args, kw, n, st):
     c, a, b = args
+    if isinstance(b, V) and isinstance(b.ty, TOpt) and not (isinstance(a, V) and isinstance(a.ty, TOpt)):
+        a = eng.coerce(a, b.ty, n)
     return V(a.ty, z3.If(eng.truthy(c, n), a.t, eng.coerce(b, a.ty, n).t))
 
 
@@ -494,6 +496,14 @@ def mutate(eng, cur, meth, args, n, st):
                 if isinstance(other, tuple):
                     other = eng.coerce(other, ty, n)
                 return V(TSeq(ty.elem), SQ.concat(cur.t, other.t))
+            if meth == "pop":
+                ln = SQ.length(cur.t)
+                if args:
+                    i = z3.simplify(args[0].t)
+                    if not (z3.is_int_value(i) and i.as_long() == -1):
+                        raise OutOfSubset(n, "list.pop(i) with i other than -1")
+                eng.require(st, "safe.pop", n, ln > 0, "IndexError")
+                return V(TSeq(ty.elem), SQ.take(cur.t, ln - 1))
             if meth == "insert":
                 i, x = args[0].t, eng.coerce(args[1], ty.elem, n).t
                 ln = SQ.length(cur.t)
